@@ -496,7 +496,9 @@ func c11gen(g *gen, tier string, w *bufio.Writer) {
 		c11line(w, "wrsedge", max, cs)
 	}
 	// 4. statistical test of proportionality (labelled test)
-	stats := []string{"1,1", "1,2,3,4", "0,7,0,3", "1000,500,250,250"}
+	// (the largest weights crowd the keys u^(1/w) just below 1: the selection must still tell them apart)
+	stats := []string{"1,1", "1,2,3,4", "0,7,0,3", "1000,500,250,250", "4294967295,4294967295",
+		"1000000000,2000000000,1000000000", "16777216,16777216,33554432"}
 	if tier == "thorough" {
 		stats = append(stats, "4294967295,4294967295,2147483647", "2,1,1,1,1,1,1", "1,1000", "1,1,1,1,1,1,1,1,1,1,1,1",
 			"1,1", "1,2,3,4", "0,7,0,3", "1000,500,250,250")
